@@ -588,6 +588,12 @@ def close(x, num, den, tol=1e-9):
 def _chunk_runner(args):
     fn, chunk = args
     os.environ["OMP_NUM_THREADS"] = os.environ.get("VERIF_OMP", "1")
+    try:        # a runaway allocation in the code under test becomes a MemoryError in this worker, not an OOM kill
+        import resource
+        lim = int(os.environ.get("VERIF_WORKER_AS_GB", "12")) << 30
+        resource.setrlimit(resource.RLIMIT_AS, (lim, lim))
+    except Exception:
+        pass
     out = []
     for c in chunk:
         try:
@@ -610,9 +616,16 @@ def pmap(fn, cases, procs=None, chunk=200):
     if procs == 1 or len(chunks) == 1:
         res = [_chunk_runner((fn, ch)) for ch in chunks]
     else:
+        # ProcessPoolExecutor notices a worker that died (multiprocessing.Pool would wait for ever)
+        from concurrent.futures import ProcessPoolExecutor
+        from concurrent.futures.process import BrokenProcessPool
         ctx = mp.get_context("fork")
-        with ctx.Pool(procs) as pool:
-            res = pool.map(_chunk_runner, [(fn, ch) for ch in chunks])
+        try:
+            with ProcessPoolExecutor(procs, mp_context=ctx) as pool:
+                res = list(pool.map(_chunk_runner, [(fn, ch) for ch in chunks]))
+        except BrokenProcessPool:
+            raise MachineryError("a replay worker process died (killed or crashed inside the library); "
+                                 "re-run with VERIF_PROCS=1 to find the case")
     flat = [x for ch in res for x in ch]
     for x in flat:
         if isinstance(x, dict) and "_harness_error" in x:
